@@ -1,5 +1,6 @@
 //! Correspondence harness: drives tokio-modbus (built from /repo's working tree) through its
 //! public API on the case lines read from stdin and prints one canonical result line per case.
+mod live;
 mod text;
 mod transport;
 
@@ -589,6 +590,9 @@ fn run_line(ctx: &mut SrvCtx, line: &str, errno: Option<i32>) -> String {
         "CLI" => run_cli(&t[1..], errno),
         "SRV" => run_srv(ctx, &t[1..]),
         "ACCEPT" => run_accept(&t[1..]),
+        "SYNC" => live::run_live(true, &t[1..]),
+        "ASYNC" => live::run_live(false, &t[1..]),
+        "CONC" => live::run_conc(&t[1..]),
         _ => "ERR cmd".into(),
     }
 }
